@@ -90,6 +90,20 @@ S = {
         "two overlapping level-0 tables; the newer one exhausts its seek allowance (>=100 charged lookups) and is compacted alone", ""),
     "c14-boundary-file-byte-equality": ("C14", "C14,C01",
         "case-insensitive comparator, one user key split over two tables of a level (snapshot-pinned large values) with different spellings at the cut", ""),
+    "c15-writer-reopened-in-trailer-skips-padding": ("C15", "C15,C03",
+        "reuse_logs=1 and a log whose length modulo 32768 is 32762..32767 at reopen (the writer starts inside a block trailer), then writes and another reopen", ""),
+    "c15-type-zero-header-silently-skipped": ("C15", "C15,C11",
+        "an alteration that sets exactly the type byte of a record with non-zero length to 0x00: dropped without a report (extends the known zero-header finding to non-zero lengths)", ""),
+    "c16-bloom-probe-count-from-reader-policy": ("C16", "C16,C01",
+        "tables written with one bloom bits_per_key and read with a larger one (reopen with a changed option; same policy name)",
+        "fmtmon_table reads half of the filtered tables through a policy object with a different bits_per_key than the builder's (C01 caught it before through reopen with mutated options)"),
+    "c16-block-entry-fast-path-varint-boundary": ("C16", "C16,C01",
+        "a block entry whose three header values are each 0 or exactly 128 (e.g. restart entry with a 128-byte key, empty or 128-byte value; user key of 16376 bytes)", ""),
+    "c17-file-entry-compare-truncates-64bit-difference": ("C17", "C17",
+        "two deleted-file entries of one level whose numbers differ by a multiple of 2^32 (file-number counter past 2^32)",
+        "fmtmon_edit generator: deleted-file numbers that alias in the low 32 bits (added before the first run against this change, which then reported it)"),
+    "c17-current-installed-before-edit-record": ("C17", "C17,C05,C03",
+        "process kill between the CURRENT rename and the append of the edit record (window on every non-reuse open)", ""),
     "c18-block-entry-bounds-32bit-wrap": ("C18", "C18",
         "a block entry whose non_shared + value_length varints wrap 2^32 (block CRC recomputed)", ""),
     "c18-manifest-level-checked-after-signed-conversion": ("C18", "C18,C17",
